@@ -90,6 +90,11 @@ fn process_violations(violations: HashMap<PathBuf, Vec<Violation>>) -> anyhow::R
     let mut stderr = std::io::stderr().lock();
     serde_json::to_writer_pretty(&mut stderr, &diagnostics)?;
     writeln!(&mut stderr)?;
+    #[cfg(feature = "verif")]
+    blockwatch::verif_trace::emit(
+        "report",
+        serde_json::json!({"files": diagnostics, "has_error": has_error_severity}),
+    );
     if has_error_severity {
         process::exit(1);
     }
